@@ -190,6 +190,64 @@ pub fn run(tier: &str, seed: u64) {
     emit(&format!("sharks.iter {} {} {} {}", t, hex(&secret), sd, toks.join(",")), &format!("ok {}", hs.join(",")));
     stat("sharks.iterator_api");
   }
+  // the public free functions: interpolate (raw: no dedup, no length check), random_polynomial,
+  // get_evaluator
+  {
+    let special: Vec<[u8; 24]> = vec![le24(0, 0), le24(1, 0), le24(2, 0), le24(12450, 1), le24(1u128 << 64, 0), le24(0, 1)];
+    for _ in 0..(if quick(tier) { 60 } else { 1500 }) {
+      let cnt = g.range(0, 5) as usize;
+      let ylen = g.range(0, 3) as usize;
+      let mut raw: Vec<Vec<u8>> = Vec::new();
+      for i in 0..cnt {
+        let mut b = Vec::new();
+        b.extend(if g.chance(1, 2) { g.pick(&special).to_vec() } else { le24(g.next() as u128 | ((g.next() as u128) << 64), 0).to_vec() });
+        // ragged now and then: a later share shorter / longer than the first
+        let yl = if i > 0 && g.chance(1, 8) { if g.chance(1, 2) { ylen.saturating_sub(1) } else { ylen + 1 } } else { ylen };
+        for _ in 0..yl {
+          b.extend(if g.chance(1, 3) { g.pick(&special).to_vec() } else { le24(g.next() as u128 | ((g.next() as u128) << 64), 0).to_vec() });
+        }
+        raw.push(b);
+      }
+      if cnt > 1 && g.chance(1, 4) {
+        raw[1] = raw[0].clone();
+      }
+      let shs: Vec<Share> = raw.iter().map(|b| Share::try_from(&b[..]).unwrap()).collect();
+      let ans = match std::panic::catch_unwind(std::panic::AssertUnwindSafe(|| star_sharks::interpolate(&shs))) {
+        Err(_) => "panic".to_string(),
+        Ok(Err(_)) => "err".to_string(),
+        Ok(Ok(v)) => format!("ok {}", if v.is_empty() { "-".to_string() } else { hex(&v) }),
+      };
+      stat(&format!("sharks.interpolate.{}", ans.split(' ').next().unwrap()));
+      let hs: Vec<String> = raw.iter().map(|b| hex(b)).collect();
+      emit(format!("sharks.interp {}", hs.join(",")).trim_end(), &ans);
+    }
+    for i in 0..(if quick(tier) { 20 } else { 300 }) {
+      let k = *g.pick(&[0u32, 1, 2, 3, 5, 17]);
+      let sd = g.next();
+      let s = if i % 3 == 0 { *g.pick(&special) } else { le24(g.next() as u128, 0) };
+      let mut rng = SmRng(Sm(sd));
+      let poly = star_sharks::random_polynomial(fp_of(&s).unwrap(), k, &mut rng);
+      let cs: Vec<String> = poly.iter().map(|c| hex(&crate::s_fp::repr(c))).collect();
+      emit(&format!("sharks.rpoly {} {} {}", hex(&s), k, sd), &format!("ok {}", cs.join(",")));
+      stat("sharks.random_polynomial");
+      // get_evaluator on caller-made polynomials (any degree, also unequal degrees and empty ones)
+      let np = g.range(1, 3) as usize;
+      let mut polys: Vec<Vec<star_sharks::Fp>> = Vec::new();
+      let mut toks: Vec<String> = Vec::new();
+      for _ in 0..np {
+        let deg = g.range(1, 4) as usize;
+        let cs: Vec<[u8; 24]> = (0..deg).map(|_| if g.chance(1, 3) { *g.pick(&special) } else { le24(g.next() as u128 | ((g.next() as u128) << 64), 0) }).collect();
+        toks.push(cs.iter().map(|c| hex(c)).collect::<Vec<_>>().join(","));
+        polys.push(cs.iter().map(|c| fp_of(c).unwrap()).collect());
+      }
+      let mut ev = star_sharks::get_evaluator(polys);
+      let n = g.range(1, 4) as usize;
+      let shares: Vec<Share> = (0..n).map(|_| ev.next().unwrap()).collect();
+      let hs: Vec<String> = shares.iter().map(|s| hex(&share_bytes(s))).collect();
+      emit(&format!("sharks.geteval {} {}", toks.join("|"), n), &format!("ok {}", hs.join(",")));
+      stat("sharks.get_evaluator");
+    }
+  }
   // thresholds at integer-width boundaries (2^8, 2^16): the RNG is a SplitMix64 stream identified by
   // its seed (the driver runs the same generator), so no word list has to be transmitted
   let bounds: &[u32] = if quick(tier) { &[255, 256, 257, 65535, 65536, 65537] } else { &[255, 256, 257, 1023, 1024, 4095, 4096, 65535, 65536, 65537, 65538, 131072, 131073] };
